@@ -37,10 +37,10 @@ ASSUMPTIONS = ['spontaneous cyclic-GC timing is not modelled (gc.disable(); fina
 # ================================================================================================ generators
 def _gen_hist(rng, tier):
     nfiles = rng.randint(2, 4)
-    style = rng.choice(['random', 'random', 'reopen-finalise', 'single-close', 'gc-heavy'])
+    style = rng.choice(['random', 'random', 'reopen-finalise', 'single-close', 'gc-heavy', 'derive-close', 'derive-close'])
     if tier == 'search':
-        style = rng.choice(['random', 'reopen-finalise', 'gc-heavy'])
-    steps, nobj, ref, pend, closed = [], 0, [], [], set()
+        style = rng.choice(['random', 'reopen-finalise', 'gc-heavy', 'derive-close'])
+    steps, nobj, ref, pend, closed, nder = [], 0, [], [], set(), 0
     nsteps = rng.randint(3, 12)
     for _ in range(nsteps):
         choices = ['open']
@@ -52,7 +52,15 @@ def _gen_hist(rng, tier):
                 choices += ['dropdefer', 'dropdefer']
         if pend:
             choices += ['gc', 'gc'] if style == 'gc-heavy' else ['gc']
+        live = [o for o in ref if o not in closed]
+        if live and nder < 3:
+            choices += ['derive'] * (3 if style == 'derive-close' else 1)
+        if style == 'derive-close' and nder and ref:
+            choices += ['close', 'drop']            # close / finalise the sources while the derived files are still used
         k = rng.choice(choices)
+        if k == 'derive':
+            steps.append(['derive', rng.choice(live), rng.choice(DERIVE_OPS)]); nder += 1
+            continue
         if len(ref) + len(pend) >= 5 and k == 'open':
             k = rng.choice(['drop', 'close']) if ref else 'gc'
         if k == 'open':
@@ -79,6 +87,7 @@ def _gen_hist(rng, tier):
     return dict(kind='h-' + style, nfiles=nfiles, fmt=rng.choice(['NETCDF3_CLASSIC', 'NETCDF4']), steps=steps)
 
 
+DERIVE_OPS = ['copy', 'subset', 'slice', 'mask', 'renvar', 'insdim', 'rendim']   # eval / stack / reorderDimensions raise on netCDF4-backed objects (C01 finding), not used here
 OPS_CLEAN = ['copy', 'subset', 'slice-slice', 'slice-int', 'slice-list', 'apply-mean', 'renvar', 'rendim', 'insdim', 'reorder', 'reorder-rot', 'reorder-same',
              'rmsingle', 'stack', 'mask', 'add', 'eval-expr', 'gettimes', 'gettimes-bounds', 'date2num', 'time2idx', 'val2idx-nearest',
              'repr', 'dump', 'save']
@@ -162,6 +171,47 @@ def _read(o):
         return None
 
 
+def _derive(o, how):
+    """an in-memory file derived from the disk-backed object o (None if the derivation raises)"""
+    try:
+        if how == 'copy': return o.copy()
+        if how == 'subset': return o.subsetVariables(['v'])
+        if how == 'slice': return o.sliceDimensions(x=slice(0, 2))
+        if how == 'mask': return o.mask(greater=1000)
+        if how == 'renvar': return o.renameVariable('v', 'w')
+        if how == 'insdim': return o.insertDimension(w=1)
+        if how == 'rendim': return o.renameDimension('x', 'xx')
+        if how == 'evalall': return o.eval('w = v * 1', copyall=True)
+    except Exception:
+        return None
+    return None
+
+
+def _use(g, tmp):
+    """USE a derived file completely: read every variable, len / unlimited flag of every dimension, every attribute, save it.
+    Returns the id of the disk file whose data comes back, None if anything raises."""
+    import numpy as np
+    if g is None:
+        return None
+    try:
+        fid = None
+        for k in g.variables.keys():
+            a = np.ma.filled(np.ma.masked_invalid(np.asarray(g.variables[k][...], dtype='d')), -1).ravel()
+            if fid is None and a.size:
+                fid = int(a[0]) // 10
+        for k, d in g.dimensions.items():
+            len(d); d.isunlimited()
+        for k in g.ncattrs():
+            getattr(g, k)
+        p = os.path.join(tmp, 'used.nc')
+        out = g.save(p, format='NETCDF3_CLASSIC', verbose=0)
+        out.close()
+        os.remove(p)
+        return fid
+    except Exception:
+        return None
+
+
 def _hist_child(case, tmp):
     import gc, warnings
     warnings.simplefilter('ignore')
@@ -181,7 +231,7 @@ def _hist_child(case, tmp):
     del f, v
     gc.collect()
     objs, pend, slots, nobj = {}, [], [], 0
-    groups, refs, obs = [], [], []
+    groups, refs, obs, uses, derived = [], [], [], [], []
     for st in case['steps']:
         k = st[0]
         if k == 'open':
@@ -192,6 +242,9 @@ def _hist_child(case, tmp):
         elif k == 'close':
             objs[st[1]].close()
             g = [['close', st[1]]]
+        elif k == 'derive':
+            derived.append(_derive(objs[st[1]], st[2]))
+            g = [['derive', st[1]]]
         elif k == 'drop':
             del objs[st[1]]
             gc.collect()
@@ -206,10 +259,11 @@ def _hist_child(case, tmp):
             g = [['close', o] for o in sorted(pend)]
             pend = []
         groups.append(g)
+        uses.append([_use(gf, tmp) for gf in derived])
         r = sorted(objs)
         refs.append(r)
         obs.append([_read(objs[o]) for o in r])
-    return dict(groups=groups, refs=refs, obs=obs, slots=slots)
+    return dict(groups=groups, refs=refs, obs=obs, slots=slots, uses=uses)
 
 
 def _mkfile(spec, which, backing, tmp):
@@ -370,7 +424,13 @@ def _op_child(case, tmp):
         allq = ['gettimes', 'gettimes-bounds', 'date2num', 'time2idx', 'val2idx-nearest', 'repr', 'dump', 'save']
         if op in allq: return '(OtherQuery %d%%nat)' % allq.index(op)
         raise ValueError('no catalogue entry for ' + op)
-    desc = ['Call', call_of(), bool(mem), list(range(n))]
+    # dimension objects of the inputs: id 500 + 20 * file + position
+    indims = []
+    for j, fi in enumerate(ins):
+        for i, (dk, dv) in enumerate(fi.dimensions.items()):
+            indims.append((500 + 20 * j + i, j, dk, dv))
+    dimstate = lambda: [(int(len(dv)), bool(dv.isunlimited())) for _, _, _, dv in indims]
+    desc = ['Call', call_of(), bool(mem), list(range(n)), [d[0] for d in indims]]
     before = [_snap(fi) for fi in ins]
     t0 = datetime(2000, 1, 1, 1, tzinfo=timezone.utc)
     res, raised = None, None
@@ -466,6 +526,29 @@ def _op_child(case, tmp):
                     sh = True
                 if sh:
                     aliased.append(bid)
+        # dimension objects: the result must not hold the input's own objects
+        try:
+            rdims = list(res.dimensions.items())
+        except Exception:
+            rdims = []
+        for rk, rd in rdims:
+            for did, j, dk, dv in indims:
+                if rd is dv:
+                    aliased.append(did)
+        # attribute containers: setting / rebinding attributes on the result and on its variables must stay there
+        try:
+            res.c05_probe_attr = 1
+            for k_ in list(res.ncattrs())[:3]:
+                if k_ != 'c05_probe_attr':
+                    setattr(res, k_, 'c05-changed')
+            for ov in outs:
+                if isinstance(ov, np.ndarray):
+                    ov.c05_probe_attr = 1
+                    for k_ in list(ov.ncattrs())[:2]:
+                        if k_ not in ('c05_probe_attr', 'fill_value', '_FillValue', 'missing_value'):
+                            setattr(ov, k_, 'c05-changed')
+        except Exception:
+            pass
         for ov in outs:
             try:
                 if ov.dtype.kind in 'fiu':
@@ -478,6 +561,32 @@ def _op_child(case, tmp):
             except Exception:
                 pass
         later = _diff(ins, after, [_snap(fi) for fi in ins], base)
+        # write-through on the dimension objects of the result: flip the unlimited flag, change the length
+        d0 = dimstate()
+        for rk, rd in rdims:
+            try:
+                if hasattr(rd, 'setunlimited'):
+                    rd.setunlimited(not rd.isunlimited())
+                if hasattr(rd, '_len'):
+                    rd._len = rd._len + 1
+            except Exception:
+                pass
+        d1 = dimstate()
+        later = sorted(set(later + [indims[i][0] for i in range(len(indims)) if d0[i] != d1[i]]))
+        # ... and on the inputs' dimension objects: the result must not follow
+        try:
+            rd0 = [(int(len(rd)), bool(rd.isunlimited())) for _, rd in rdims]
+            for did, j, dk, dv in indims:
+                if hasattr(dv, 'setunlimited') and hasattr(dv, '_len'):
+                    dv.setunlimited(not dv.isunlimited()); dv._len = dv._len + 1
+            rd1 = [(int(len(rd)), bool(rd.isunlimited())) for _, rd in rdims]
+            if rd0 != rd1:
+                later = sorted(set(later + [did for did, j, dk, dv in indims if any(rd is dv for _, rd in rdims)] or [3001]))
+            for did, j, dk, dv in indims:      # put the inputs back so that the snapshots below compare like with like
+                if hasattr(dv, 'setunlimited') and hasattr(dv, '_len'):
+                    dv.setunlimited(not dv.isunlimited()); dv._len = dv._len - 1
+        except Exception:
+            pass
         # ... and vice versa: write into every (memory-backed) input variable, data and mask; the returned file must not change
         try:
             r0 = _snap(res)
@@ -488,6 +597,15 @@ def _op_child(case, tmp):
                         mi = np.ma.getmask(iv)
                         if mi is not np.ma.nomask:
                             mi[...] = ~mi
+                except Exception:
+                    pass
+            for fi in ins:
+                try:
+                    if not hasattr(fi, 'filepath') or mem:
+                        fi.c05_probe_in = 1
+                        for k_ in list(fi.ncattrs())[:3]:
+                            if k_ != 'c05_probe_in':
+                                setattr(fi, k_, 'c05-in-changed')
                 except Exception:
                     pass
             r1 = _snap(res)
@@ -519,13 +637,15 @@ def coq_term(case, obs):
     if 'raises' in obs:
         return None
     if case['kind'].startswith('h-'):
-        pr = lambda e: '(Open %d%%nat)' % e[1] if e[0] == 'open' else '(Close %d%%nat)' % e[1]
+        pr = lambda e: ('(P (Open %d%%nat))' % e[1] if e[0] == 'open' else
+                        '(P (Close %d%%nat))' % e[1] if e[0] == 'close' else '(Derive %d%%nat)' % e[1])
+        on = lambda ll: '[' + '; '.join('[' + '; '.join('None' if x is None else '(Some %d%%nat)' % x for x in o) + ']' for o in ll) + ']'
         gs = '[' + '; '.join('[' + '; '.join(pr(e) for e in g) + ']' for g in obs['groups']) + ']'
         refs = '[' + '; '.join(C.natlist(r) for r in obs['refs']) + ']'
         ob = '[' + '; '.join('[' + '; '.join('None' if x is None else '(Some %d%%nat)' % x for x in o) + ']' for o in obs['obs']) + ']'
-        return '(HCase %s %s %s %s)' % (gs, refs, ob, C.natlist(obs['slots']))
+        return '(HCase %s %s %s %s %s)' % (gs, refs, ob, C.natlist(obs['slots']), on(obs.get('uses', [[] for _ in obs['groups']])))
     d = obs['desc']
-    o = '(Call %s %s %s)' % (d[1], C.cbool(d[2]), C.natlist(d[3]))
+    o = '(Call %s %s %s %s)' % (d[1], C.cbool(d[2]), C.natlist(d[3]), C.natlist(d[4] if len(d) > 4 else []))
     return '(ACase %s %s %s %s)' % (o, C.natlist(obs['aliased']), C.natlist(obs['mutated']), C.natlist(obs['later']))
 
 
@@ -534,8 +654,16 @@ def py_check(case, obs):
         return dict(s_ok=False, f_ok=False, region=0, why='case runner failed: %s %s' % (obs.get('raises'), obs.get('msg', '')))
     if case['kind'].startswith('h-'):
         # independent restatement of S on the raw steps: a referenced object the program never closed must read its own file
-        closed, fileof, n, why = set(), {}, 0, []
+        closed, fileof, n, why, dsrc = set(), {}, 0, [], []
         for k, (st, r, o) in enumerate(zip(case['steps'], obs['refs'], obs['obs'])):
+            if st[0] == 'derive':
+                dsrc.append(st[1])
+            for d, val in enumerate((obs.get('uses') or [[]] * (k + 1))[k]):
+                want = fileof.get(dsrc[d])
+                if val != want:
+                    why.append('step %d (%s): derived file %d (%s of object %d, file %s) %s when used (read all variables, len of all dimensions, save)' % (
+                        k, st, d, [s_ for s_ in case['steps'] if s_[0] == 'derive'][d][2], dsrc[d], want,
+                        'RAISES' if val is None else 'returns data of file %d' % val))
             if st[0] == 'open':
                 fileof[n] = st[1]; n += 1
             elif st[0] == 'close':
@@ -591,7 +719,7 @@ def _wellformed(steps):
     for s in steps:
         if s[0] == 'open':
             ref.add(n); n += 1
-        elif s[0] == 'close':
+        elif s[0] in ('close', 'derive'):
             if s[1] not in ref:
                 return False
         elif s[0] in ('drop', 'dropdefer'):
@@ -606,7 +734,9 @@ ANCHORS = [
     # (file, qualified function, statement that must be present, statements that must be absent, what the model transcribes)
     ('core/_files.py', 'PseudoNetCDFFile.copyVariable', ['myvar = self.createVariable(key, dtype, dimensions, fill_value=fill_value)', 'myvar[:] = vals[:]'], [], 'CopyVariable'),
     ('core/_variables.py', 'PseudoNetCDFVariable.__new__', ['result = np.zeros(shape, typecode)', "result = kwds.pop('values')", 'result = result[...].view(subtype)'], [], 'CreateAssign / CreateValues'),
-    ('core/_files.py', 'PseudoNetCDFFile._copywith', ['outf.copyVariable(vv, key=vk, withdata=data)'], [], 'Copy / RenameDim'),
+    ('core/_files.py', 'PseudoNetCDFFile._copywith', ['outf.copyVariable(vv, key=vk, withdata=data)', 'outf.copyDimension(dv, key=dk)', 'setattr(outf, pk, getattr(self, pk))'], ['outf.dimensions[dk] = dv'], 'Copy / RenameDim / CopyDimension'),
+    ('core/_files.py', 'PseudoNetCDFFile.copyDimension', ['ndv = self.createDimension(key, dimlen)', 'ndv.setunlimited(unlimited)', 'return ndv'], ['return dim', 'self.dimensions[key] = dim'], 'CopyDimension'),
+    ('core/_files.py', 'PseudoNetCDFFile.createDimension', ['dim = self.dimensions[name] = PseudoNetCDFDimension(self, name, length)'], [], 'CopyDimension'),
     ('core/_files.py', 'PseudoNetCDFFile.subsetVariables', ['outf.copyVariable(varo, key=varkey, withdata=True)'], [], 'Subset'),
     ('core/_files.py', 'PseudoNetCDFFile.sliceDimensions', ['newvals = varo[...]', 'newvaro[...] = newvals'], [], 'SliceDims'),
     ('core/_files.py', 'PseudoNetCDFFile.applyAlongDimensions', ['newvals = varo[...]', 'newvaro[...] = newvals'], [], 'ApplyAlong'),
